@@ -177,6 +177,7 @@ func hostileInputs() []string {
 		"any a as x", "any a as x {", "any a as x { }", "any a as x,x { x == 1 }", "any a as _,_ { a == 1 }", "all a as _, { a == 1 }", "1 in", "1 in 2", "a in 1", "\"/\" == 1",
 		"\"//\" == 1", "\"/a/\" == 1", "\"\" == 1", "\"\" is empty", "a == 1.", "a == 1.5.5", "a == -", "a == --1", "a == 01", "a == 1e5", "a ==1", "a== 1", "a==1", "a==1)", "(a==1",
 		"((a==1)", "(a==1))", "()", "( )", "{}", "a == 1 }", "a is", "a is not", "a is empty or", "a is  empty", "a matches", "a matches (", "a matches \"(\"", "a not", "a not in b",
+		"b matches \"(\"", "b not matches \"*\"", "b matches \"a{2,1}\"", "m.k matches \"?\"", "s.2 matches \"[\"", "B matches `(`", "any s as x { x matches \"(\" }", "b matches \"\\\\\"",
 		"a == \ufffd", "\ufeffa == 1", "a == 1\u2028", "a\u00a0== 1", "é == 1", "a.é == 1", "a == é", "\"/é\" == 1", "\"/\u0661\" == 1", "\"/a b\" == 1", "a == 1 # c", "a == 1; b == 2",
 		strings.Repeat("a == 1 and ", 200) + "a == 1", strings.Repeat("not ", 500) + "a == 1", strings.Repeat("a.", 2000) + "a == 1", "a == \"" + strings.Repeat("x", 60000) + "\"",
 		strings.Repeat(" ", 60000) + "a == 1", "a == " + strings.Repeat("9", 5000), strings.Repeat("a", 60000) + " == 1"}
